@@ -1,6 +1,111 @@
+import Proofs.C16.Musig2Agg
 /-!
 # C16 — property theorems only (see DESIGN.md §3 C16).
+
+Every scheme is the SAME definition the driver executes (`Model/C16/*.lean`, instantiated there
+with `Btc.EC.ops secp256k1` and the SHA-256 tagged hash) — here for ANY `o : GroupOps α` that is
+`Lawful` (the operations of a group of prime order with x / parity / lift_x maps: property C01's
+business for the concrete curve) and ANY hash `H`.  `hp`, `hn` say that coordinates and scalars fit
+the 32-byte fields MuSig2/BIP340 serialise them in (true of secp256k1: `example` below).
 -/
 namespace Props.C16
+open Btc Btc.Py Btc.C16
+
+variable {α G : Type} [AddCommGroup G] {o : GroupOps α}
+
+/-! ## MuSig2 (BIP327) -/
+
+/-- **T1 (tweak invariant).** After `key_agg` and any list of plain / x-only tweaks, the context
+satisfies `Q = gacc•Q₀ + tacc•G` with `Q₀` the untweaked aggregate, and `Q ≠ ∞`. -/
+theorem musig2_tweak_invariant (L : Lawful o G) (H : Bytes → Bytes → Bytes)
+    (pks : List Bytes) (tweaks : List (Bytes × Bool)) (c : KeyAggCtx α)
+    (h : keyAggAndTweak o H pks tweaks = .ok c) :
+    ∃ c0, keyAgg o H pks = .ok c0 ∧ o.isZero c.Q = false ∧
+      L.abs c.Q = c.gacc • L.abs c0.Q + c.tacc • L.abs o.gen :=
+  keyAggAndTweak_invariant L H h
+
+/-- T1, one step: `apply_tweak` preserves the invariant relative to any reference point. -/
+theorem musig2_apply_tweak_invariant (L : Lawful o G) (c c' : KeyAggCtx α) (tweak : Bytes) (x : Bool)
+    (P0 : α) (h : applyTweak o c tweak x = .ok c')
+    (h0 : L.abs c.Q = c.gacc • L.abs P0 + c.tacc • L.abs o.gen) :
+    L.abs c'.Q = c'.gacc • L.abs P0 + c'.tacc • L.abs o.gen :=
+  applyTweak_invariant L P0 h h0
+
+/-- **T2 (honest partial signatures verify).** For ANY session context — any key list (any length,
+order, duplicates) containing the signer's key, any tweak list, any message, any aggregate nonce,
+with or without adaptor — and any secret key / secret nonces: whenever `sign` answers, its answer
+passes `partial_sig_verify_` against the signer's public nonce and public key. -/
+theorem musig2_partial_sig_verifies (L : Lawful o G) (H : Bytes → Bytes → Bytes)
+    (hp : o.p ≤ 256 ^ 32) (hn : o.n ≤ 256 ^ 32) (s : SessionCtx) (d k1 k2 σ : Int)
+    (hs : sign o H k1 k2 (individualPubKey o d) d s = .ok σ) :
+    partialSigVerify o H (sBytes σ) (cbytes o (o.mul k1 o.gen) ++ cbytes o (o.mul k2 o.gen))
+      (individualPubKey o d) s = .ok true :=
+  partial_sig_verifies L H hp hn hs
+
+/-- `sign` answers exactly when the session assembles, the scalars are in range and the signer's
+key is in the list (so T2 is not vacuous: these are the preconditions of an honest signer). -/
+theorem musig2_sign_defined (H : Bytes → Bytes → Bytes) (s : SessionCtx) (d k1 k2 : Int)
+    (v : SessionValues α) (hv : sessionValues o H s = .ok v)
+    (hk1 : 0 < k1 ∧ k1 < o.n) (hk2 : 0 < k2 ∧ k2 < o.n) (hd : 0 < d ∧ d < o.n)
+    (hmem : individualPubKey o d ∈ s.pubKeys) :
+    ∃ σ, sign o H k1 k2 (individualPubKey o d) d s = .ok σ := by
+  have h1 : scalarOk o k1 = true := (scalarOk_iff k1).mpr hk1
+  have h2 : scalarOk o k2 = true := (scalarOk_iff k2).mpr hk2
+  have h3 : scalarOk o d = true := (scalarOk_iff d).mpr hd
+  unfold sign
+  rw [hv]
+  simp [h1, h2, h3, hmem]
+
+/-- **T3 (the aggregate is a BIP340 signature).** Honest signers `l` (any number, any order,
+duplicates allowed), any tweak list and message; the aggregate nonce is `nonce_agg` of their public
+nonces; each partial signature is what `sign` answers. Unless the final nonce is the point at infinity
+(`Σk₁ + b·Σk₂ ≡ 0`, where BIP327 deliberately lets the session complete with an invalid signature),
+`partial_sig_agg` answers `(r, s)` and it satisfies BIP340 verification for the aggregate x-only key
+`x(Q)` — all parities of `R`, `Q` and of every x-only tweak. -/
+theorem musig2_aggregate_verifies (L : Lawful o G) (H : Bytes → Bytes → Bytes)
+    (hp : o.p ≤ 256 ^ 32) (hn : o.n ≤ 256 ^ 32) (l : List Signer) (hl : ∀ t ∈ l, t.ok o)
+    (tweaks : List (Bytes × Bool)) (msg an : Bytes)
+    (han : nonceAgg o (l.map (Signer.pubNonce o)) = .ok an)
+    (v : SessionValues α) (hv : sessionValues o H (honestCtx o l an tweaks msg none) = .ok v)
+    (hR : ((l.map Signer.k1).sum + v.b * (l.map Signer.k2).sum) % o.n ≠ 0)
+    (sigs : List Int)
+    (hs : List.Forall₂ (fun t σ => sign o H t.k1 t.k2 (t.pk o) t.d (honestCtx o l an tweaks msg none) = .ok σ)
+      l sigs) :
+    ∃ r sg, partialSigAgg o H (sigs.map sBytes) (honestCtx o l an tweaks msg none) = .ok (r, sg) ∧
+      bip340Verify o H (o.x v.Q) msg r sg = true :=
+  aggregate_verifies L H hp hn l hl tweaks msg an han hv hR sigs hs
+
+/-- honest `nonce_agg` always answers (the hypothesis `han` of T3/T4 is satisfiable for every list) -/
+theorem musig2_nonce_agg_defined (L : Lawful o G) (hp : o.p ≤ 256 ^ 32) (l : List Signer)
+    (hl : ∀ t ∈ l, t.ok o) : ∃ an, nonceAgg o (l.map (Signer.pubNonce o)) = .ok an := by
+  obtain ⟨S1, S2, h, -, -⟩ := nonceAgg_honest L hp l hl
+  exact ⟨_, h⟩
+
+/-- **T4 (adaptor).** The same honest session carrying the adaptor point `T = t•G`:
+`partial_sig_agg_adaptor` answers a pre-signature, `adapt` with the secret `t` completes it into a
+signature that satisfies BIP340 verification for the aggregate key, and `extract_adaptor` of the two
+returns `t` — both parities of the final nonce. -/
+theorem musig2_adaptor_completes (L : Lawful o G) (H : Bytes → Bytes → Bytes)
+    (hp : o.p ≤ 256 ^ 32) (hn : o.n ≤ 256 ^ 32) (l : List Signer) (hl : ∀ t ∈ l, t.ok o)
+    (tweaks : List (Bytes × Bool)) (msg an : Bytes) (t : Int) (ht0 : 0 < t) (ht1 : t < o.n)
+    (han : nonceAgg o (l.map (Signer.pubNonce o)) = .ok an)
+    (v : SessionValues α)
+    (hv : sessionValues o H (honestCtx o l an tweaks msg (some (cbytes o (o.mul t o.gen)))) = .ok v)
+    (hR : (((l.map Signer.k1).sum + t) + v.b * (l.map Signer.k2).sum) % o.n ≠ 0)
+    (sigs : List Int)
+    (hs : List.Forall₂ (fun u σ => sign o H u.k1 u.k2 (u.pk o) u.d
+      (honestCtx o l an tweaks msg (some (cbytes o (o.mul t o.gen)))) = .ok σ) l sigs) :
+    ∃ pre sig,
+      partialSigAggAdaptor o H (sigs.map sBytes) (honestCtx o l an tweaks msg (some (cbytes o (o.mul t o.gen))))
+        = .ok pre ∧
+      adapt o H pre t (honestCtx o l an tweaks msg (some (cbytes o (o.mul t o.gen)))) = .ok sig ∧
+      bip340Verify o H (o.x v.Q) msg sig.1 sig.2 = true ∧
+      extractAdaptor o H sig pre (honestCtx o l an tweaks msg (some (cbytes o (o.mul t o.gen)))) = .ok t :=
+  adaptor_completes L H hp hn l hl tweaks msg an t ht0 ht1 han hv hR sigs hs
+
+/-- the size hypotheses hold for secp256k1, and the generated sizes/placeholders are the ones the
+proofs used (a changed `_PK_SIZE`, `_SCALAR_SIZE`, `_NONCE_SIZE` or `_INF_BYTES` breaks this) -/
+example : (EC.ops EC.secp256k1).p ≤ 256 ^ 32 ∧ (EC.ops EC.secp256k1).n ≤ 256 ^ 32 := by decide
+example : pkSize = 33 ∧ scalarSize = 32 ∧ nonceSize = 66 ∧ infBytes = List.replicate 33 0 := by decide
 
 end Props.C16
